@@ -38,6 +38,8 @@ func main() {
 		runSearch(a, pool)
 	case "race":
 		runRace(a, pool)
+	case "chain":
+		runChain(a, pool)
 	default:
 		runCorr(a, pool)
 	}
